@@ -33,6 +33,7 @@ type Frame struct {
 	pcBase    int     // len(st.pc) when the frame was pushed
 	dirty     bool    // wrote to an object older than the frame
 	goRoot    bool    // root frame of a goroutine run by vnd.RunGoroutines
+	syncOut   *Value  // set for a frame run to completion by callSync: where its result goes
 }
 
 type draw struct {
